@@ -183,8 +183,8 @@ PROPS["C14"] = {
     "harnesses": [
         H(KHP, "c14::c14_id_roundtrip", "urlencode = '%xy'*20 lower-case hex; urldecode inverts it", "all identifiers", ["urlencode_20_bytes", "urldecode_20_bytes"], cost=60),
         H(KHP, "c14::c14_urldecode_n0", "Ok(v) <=> exactly 20 well-formed units and v[i] = unit value (reference decoder)", "0 units", ["urldecode_20_bytes"], cost=30),
-        H(KHP, "c14::c14_urldecode_n1", "Ok(v) <=> exactly 20 well-formed units ...", "1 arbitrary unit (ASCII | 2-byte char | %XY)", ["urldecode_20_bytes"], cost=60),
-        H(KHP, "c14::c14_urldecode_n3_wide", "Ok(v) <=> exactly 20 well-formed units ...", "3 arbitrary units incl. 2-byte chars", ["urldecode_20_bytes"], cost=120),
+        H(KHP, "c14::c14_urldecode_n1", "Ok(v) <=> exactly 20 well-formed units ...", "1 arbitrary unit (ASCII | 2-byte char | %XY)", ["urldecode_20_bytes"], tier="thorough", cost=300),
+        H(KHP, "c14::c14_urldecode_n3_wide", "Ok(v) <=> exactly 20 well-formed units ...", "3 arbitrary units incl. 2-byte chars", ["urldecode_20_bytes"], tier="thorough", cost=400),
         H(KHP, "c14::c14_urldecode_one_free_front", "19 fixed raw units + one arbitrary unit in front: Ok <=> the unit is well-formed, value == reference", "one arbitrary unit (ASCII | 2-byte char | %XY)", ["urldecode_20_bytes"], cost=120),
         H(KHP, "c14::c14_urldecode_one_free_back", "19 fixed raw units + one arbitrary unit at the end: Ok <=> the unit is well-formed, value == reference", "one arbitrary unit", ["urldecode_20_bytes"], cost=120),
         H(KHP, "c14::c14_urldecode_n19", "Ok(v) <=> exactly 20 well-formed units ...", "19 units (ASCII | %XY)", ["urldecode_20_bytes"], tier="thorough", cost=900, timeout=3000),
